@@ -338,6 +338,30 @@ def run(ctx):
         w.add('pdiff %s %s %s %d' % (hx(e), hx(r), hx(b'f.snap'), 3), ('colour-empty-iff-identical', exp))
         cw.append(w)
     run_suite(ctx, 'diff.report.colour', cw, env={'NO_COLOR': ''}, use_model=False, chunk=500)
+    # very long texts (thousands of lines) whose only difference lies far from the start: nothing may bound how
+    # much of the texts is compared.  No model: the Lean diff engine is quadratic; the report is parsed and checked
+    # against the two texts (rows, counts, residue), in both colour modes
+    huge = []
+    for i, (n, at) in enumerate([(5200, 5100), (7000, 6999), (6000, 5500)][: 2 if ctx.tier == 'quick' else 3]):
+        a = [b'record %05d %s' % (k, b'x' * (k % 13)) for k in range(n)]
+        b = list(a)
+        b[at] = b[at] + b' changed'
+        if i == 1:
+            b.append(b'one more line at the very end')
+        e, r = b'\n'.join(a), b'\n'.join(b)
+        w = World('huge-%d' % i)
+        w.add('pdiff %s %s %s %d' % (hx(e), hx(r), hx(b'big.snap'), 1), ('report-structure', report_oracle(e, r)))
+        huge.append(w)
+    run_suite(ctx, 'diff.report.huge', huge, known=None, use_model=False)
+
+    def exp_huge(line, raw, ww):
+        return 'colour mode: empty report for two different texts of thousands of lines' if line.out == b'' else None
+    hc = []
+    for w0 in huge:
+        w = World(w0.tag + '-colour')
+        w.add(w0.ops[-1], ('colour-empty-iff-identical', exp_huge))
+        hc.append(w)
+    run_suite(ctx, 'diff.report.huge.colour', hc, env={'NO_COLOR': ''}, known=None, use_model=False)
     findings.report(ctx, 'C13')
 
 
